@@ -40,6 +40,8 @@ RootMentions ==
 \cup {M("or", <<n>>) : n \in StringNames}
 \cup {M("orset", <<n>>) : n \in StringNames}
 \cup {M("or2", <<pr[1], pr[2]>>) : pr \in {q \in StringNames \X StringNames : q[1] # q[2]}}
+\cup {M("ormixed", <<pr[1], pr[2]>>) : pr \in {q \in StringNames \X StringNames : q[1] # q[2]}}   \* "x" // {type: "mixed", or: ["@n", "@m"]}
+\cup {M("mixedor", <<n>>) : n \in StringNames}                                                    \* "x" // {or: ["@n", "integer"], type: "mixed"}
 \cup {M("typenull", <<n>>) : n \in StringNames}      \* null // {type: "@n", nullable: true}
 \cup {M("ornull", <<n>>) : n \in StringNames}        \* null // {or: ["@n", "integer"], nullable: true}
 \cup {M("allOf", <<n>>) : n \in ObjectNames}
@@ -77,7 +79,7 @@ ChooseVariants(f) == /\ stage = "root" /\ root # <<>>
                      \* a key shortcut needs a type whose kind is known without looking further
                      /\ \A i \in 1..Len(root) : root[i].pos = "key" => f[root[i].ns[1]] \notin {<<"ref-a">>, <<"ref-c">>}
                      \* the two alternatives of an `or` do not lead to one another (the library reports that as a recursion)
-                     /\ \A i \in 1..Len(root) : root[i].pos \in {"or2", "choice"} =>
+                     /\ \A i \in 1..Len(root) : root[i].pos \in {"or2", "choice", "ormixed"} =>
                             /\ root[i].ns[2] \notin MentionsOf(root[i].ns[1], f[root[i].ns[1]])
                             /\ root[i].ns[1] \notin MentionsOf(root[i].ns[2], f[root[i].ns[2]])
                      \* inheriting from @b must not meet a different additionalProperties setting (that is C07's refusal)
